@@ -637,12 +637,21 @@ def run_nfa2dfa(case):
 def nfa2dfa_cases(draw, tier):
     nfa = draw(G.nfa_specs(max_states=3, min_sigma=1, max_sigma=2, eps_choices=["ε", "_"], pool=G.POOL[:8]))
     key = subset_key(nfa)
-    cls = draw(st.sampled_from(["target_of_superset", "key", "mutation", "target_of_superset", "mutation", "eps_move_added", "plus_unreachable_subset", "ill_formed"]))
+    cls = draw(st.sampled_from(["target_of_superset", "key", "mutation", "other_initial", "target_of_superset", "mutation", "eps_move_added", "plus_unreachable_subset", "ill_formed"]))
     omit = []
     if cls == "key":
         ans = key
     elif cls == "mutation":
         ans = draw(GA.mutate_fa(key))
+    elif cls == "other_initial":
+        # another subset (preferably of the same size) is marked as the initial state
+        others = [q for q in key["Q"] if q != key["q0"]]
+        same = [q for q in others if q.count(",") == key["q0"].count(",") and q != "{}"]
+        if others:
+            pick = same or others
+            ans = dict(key, q0=pick[draw(st.integers(0, len(pick) - 1))])
+        else:
+            ans, cls = key, "key"
     elif cls == "target_of_superset":
         # a typical confusion: the transition of a subset X is given the target that belongs to a larger subset Y containing X
         ans = dict(key, d=[list(t) for t in key["d"]])
